@@ -5,8 +5,11 @@ import Proofs.PairingOrder
 import Proofs.Chain
 import Proofs.Conflict
 import Proofs.ConflictAll
+import Proofs.Compose_Lists
+import Proofs.Compose_Factory
+import Proofs.Compose_Align
 namespace Coma.Proofs
-open Coma Coma.Spec
+open Coma Coma.Spec Coma.Proofs.Compose
 
 /-- every segment the factory cuts from one peak's position list is factory-like, carries that
     peak, and is a contiguous run of that position list -/
@@ -14,7 +17,7 @@ theorem factory_segments_ok (P : Params) (hP : GoodParams P) (ref qry : OMap) (r
     (hr : StrictAscending ref.positions) (hq : StrictAscending qry.positions) :
     ∀ s ∈ getSegments P peak (peakPositions P ref qry rev it peak),
       FactoryLike s ∧ s.peak = peak ∧ s.items <:+: peakPositions P ref qry rev it peak := by
-  sorry
+  exact segments_ok P hP peak _ (engine_pyNodup ..) (engine_pairsAscending _ _ _ _ _ _ _ hr hq)
 
 /-- two segments cut from (possibly different) peaks of the same maps never give the same
     coordinate to two different labels -/
@@ -22,13 +25,25 @@ theorem factory_segments_strictCoords (P : Params) (hP : GoodParams P) (ref qry 
     (it1 it2 peak1 peak2 : Int) (hr : StrictAscending ref.positions) (hq : StrictAscending qry.positions)
     (s1 s2 : Seg) (h1 : s1 ∈ getSegments P peak1 (peakPositions P ref qry rev it1 peak1))
     (h2 : s2 ∈ getSegments P peak2 (peakPositions P ref qry rev it2 peak2)) : StrictCoords s1 s2 := by
-  sorry
+  have i1 := (segments_ok P hP peak1 _ (engine_pyNodup ..)
+    (engine_pairsAscending _ _ _ _ _ _ _ hr hq) s1 h1).2.2
+  have i2 := (segments_ok P hP peak2 _ (engine_pyNodup ..)
+    (engine_pairsAscending _ _ _ _ _ _ _ hr hq) s2 h2).2.2
+  intro p hp p' hp'
+  have m1 : APos.pair p ∈ peakPositions P ref qry rev it1 peak1 :=
+    mem_pairsOf.1 ((pairsOf_sublist i1.sublist).subset hp)
+  have m2 : APos.pair p' ∈ peakPositions P ref qry rev it2 peak2 :=
+    mem_pairsOf.1 ((pairsOf_sublist i2.sublist).subset hp')
+  obtain ⟨r1, q1⟩ := peak_pair_labels _ _ _ _ _ _ _ hq p m1
+  obtain ⟨r2, q2⟩ := peak_pair_labels _ _ _ _ _ _ _ hq p' m2
+  exact ⟨labels_pos_inj ref false hr _ r1 _ r2, labels_pos_inj qry rev hq _ q1 _ q2⟩
 
 /-- building a candidate never raises (C07) -/
 theorem alignerAlign_total (P : Params) (C : ChainCfg) (hP : GoodParams P) (ref qry : OMap) (peaks : List Int)
     (rev : Bool) (it : Int) (hr : StrictAscending ref.positions) (hq : StrictAscending qry.positions) :
     ∃ row, alignerAlign P C ref qry peaks rev it = .ok row := by
-  sorry
+  obtain ⟨out, h, _⟩ := alignerAlign_spec P C hP ref qry peaks rev it hr hq
+  exact ⟨_, h⟩
 
 /-- every segment of a candidate is empty or a contiguous run of the position list of one of
     the seed peaks (so each label in its span is counted exactly once), carrying that peak (C04) -/
@@ -37,14 +52,25 @@ theorem alignerAlign_accounted (P : Params) (C : ChainCfg) (hP : GoodParams P) (
     (row : Row) (h : alignerAlign P C ref qry peaks rev it = .ok row) :
     ∀ s ∈ row.segments, s.items = [] ∨
       ∃ peak ∈ peaks, ∃ it', s.peak = peak ∧ s.items <:+: peakPositions P ref qry rev it' peak := by
-  sorry
+  obtain ⟨out, h', hs⟩ := alignerAlign_spec P C hP ref qry peaks rev it hr hq
+  rw [h'] at h
+  injection h with h
+  subst h
+  intro s hsm
+  exact Or.inr (hs s hsm)
 
 /-- inside one segment of a candidate the pairs are strictly ascending on both maps (C01) -/
 theorem alignerAlign_segment_valid (P : Params) (C : ChainCfg) (hP : GoodParams P) (ref qry : OMap) (peaks : List Int)
     (rev : Bool) (it : Int) (hr : StrictAscending ref.positions) (hq : StrictAscending qry.positions)
     (row : Row) (h : alignerAlign P C ref qry peaks rev it = .ok row) :
     ∀ s ∈ row.segments, PairsAscending s.items := by
-  sorry
+  obtain ⟨out, h', hs⟩ := alignerAlign_spec P C hP ref qry peaks rev it hr hq
+  rw [h'] at h
+  injection h with h
+  subst h
+  intro s hsm
+  obtain ⟨pk, _, it', _, hinf⟩ := hs s hsm
+  exact pairsAscending_sublist hinf.sublist (engine_pairsAscending _ _ _ _ _ _ _ hr hq)
 
 /-- the whole pass leaves ALL final segments pairwise separated when no step takes the interior
     branch and every final segment keeps a pair (separation is transitive through members that
@@ -54,12 +80,12 @@ theorem resolveFrom_all_separated (P : Params) (c : Seg) (cs out : List Seg) (bs
     (hS : ∀ a ∈ c :: cs, ∀ b ∈ c :: cs, StrictCoords a b) (hb : ∀ b ∈ bs, b ≠ Branch.interior)
     (hp : ∀ s ∈ out, s.pairs ≠ []) :
     out.Pairwise Separated := by
-  sorry
+  exact consec_pairwise_separated out (resolveFrom_adjacent_separated P c cs out bs h hF hS hb) hp
 
 /-- … hence the listed pairs of the row are strictly ascending on both maps -/
 theorem separated_pairs_ascending (out : List Seg) (hs : out.Pairwise Separated)
     (ha : ∀ s ∈ out, PairsAscending s.items) :
     (out.flatMap Seg.pairs).Pairwise (fun a b => a.r.pos < b.r.pos ∧ a.q.pos < b.q.pos) := by
-  sorry
+  exact separated_flatMap out hs ha
 
 end Coma.Proofs
